@@ -649,9 +649,10 @@ namespace awkward {
     if (identities_.get() != nullptr) {
       identities = identities_.get()->getitem_carry_64(carry);
     }
+    // the content is never carried lazily: see validityerror
     return std::make_shared<UnmaskedArray>(identities,
                                            parameters_,
-                                           content_.get()->carry(carry, allow_lazy));
+                                           content_.get()->carry(carry, false));
   }
 
   int64_t
